@@ -24,7 +24,8 @@ RULE = ("(1) random workloads (<= 5 jobs, <= 2 in-memory tokens, duplicates, fai
         "events and job-process moves with up to 2 scheduler deaths (crash at any step, or inside aio_run between spawn and pid file), compared event by "
         "event with the Lean model; non-trivial = at least one death with a job process alive or a marker present at that moment; "
         "(2) real experiments: 3 small DAGs (chain, fork with token, token at capacity) x phases (before the first launch, while a job runs, between "
-        "dependent jobs, while a token is held, inside aio_run after the spawn, inside aio_run after the pid file was opened) x signals (SIGKILL, SIGTERM, SIGINT) x restart before/after the surviving job ended; "
+        "dependent jobs, while a token is held, inside prepare() after params.json / after the script before chmod / before the spawn, inside aio_run after the spawn, "
+        "inside aio_run after the pid file was opened) x signals (SIGKILL, SIGTERM, SIGINT) x restart before/after the surviving job ended; "
         "distinct = hash of the case")
 HANG_KEY = "second-run-hangs:orphan-token-at-capacity"
 PIDFILE_KEY = "second-run-hangs:partial-pid-file"
@@ -55,7 +56,7 @@ def crash_context(spec, ev, obs):
     """what the scheduler deaths of a run looked like (for the evidence and the non-triviality rule)"""
     res = []
     for k, e in enumerate(ev):
-        if e[0] in ("crash", "crashAfterSpawn") and k > 0:
+        if e[0] in ("crash", "crashAfterSpawn", "crashInPrepare") and k > 0:
             o = obs[k - 1]
             alive = sum(1 for p in o["procs"] if p["ph"] != "gone")
             body = sum(1 for p in o["procs"] if p["ph"] == "body")
@@ -122,12 +123,13 @@ DAGS = {
     "fork-token": {"jobs": [{"x": 1, "deps": [], "token": True}, {"x": 2, "deps": [], "token": True}, {"x": 3, "deps": [0], "token": False}], "token_total": 2},
     "token-capacity": {"jobs": [{"x": 1, "deps": [], "token": True}, {"x": 2, "deps": [], "token": True}], "token_total": 1},
 }
-PHASES = ["before-launch", "running", "between", "token-held", "mid-launch", "mid-pidwrite"]
+PREPARE = {"mid-prepare:after-params": "absent", "mid-prepare:after-script-before-chmod": "broken", "mid-prepare:before-spawn": "ready"}
+PHASES = ["before-launch", "running", "between", "token-held", "mid-launch", "mid-pidwrite"] + list(PREPARE)
 SIGNALS = ["SIGKILL", "SIGTERM", "SIGINT"]
 
 
 def applicable(dag, phase, sig):
-    if phase in ("mid-launch", "mid-pidwrite") and sig == "SIGINT":
+    if (phase in ("mid-launch", "mid-pidwrite") or phase in PREPARE) and sig == "SIGINT":
         return False  # the experiment leaves on SIGINT only between two callbacks, i.e. not inside aio_run
     if phase == "token-held" and not DAGS[dag]["token_total"]:
         return False
@@ -143,7 +145,7 @@ def real_cases(ctx, rng):
             for sig in SIGNALS:
                 if applicable(dag, phase, sig):
                     for fin in (False, True):
-                        if fin and phase in ("before-launch", "between"):
+                        if fin and (phase in ("before-launch", "between") or phase in PREPARE):
                             continue
                         allc.append({"dag": dag, "phase": phase, "signal": sig, "finish_before_restart": fin})
     if ctx.quick():
@@ -152,8 +154,8 @@ def real_cases(ctx, rng):
         for pi, phase in enumerate(PHASES):
             cands = [c for c in allc if c["phase"] == phase and not c["finish_before_restart"]
                      and not (c["phase"] == "before-launch" and c["dag"] == "token-capacity")]
-            if phase in ("mid-launch", "mid-pidwrite"):
-                cands = [c for c in cands if c["dag"] == "chain"]  # the token DAGs are masked by known findings here
+            if phase in ("mid-launch", "mid-pidwrite") or phase in PREPARE:
+                cands = [c for c in cands if c["dag"] == "chain"]
             picked.append(cands[(ctx.seed * 7 + pi * 3 + rng.randrange(len(cands))) % len(cands)])
         fins = [c for c in allc if c["finish_before_restart"]]
         picked.append(fins[rng.randrange(len(fins))])
@@ -235,6 +237,12 @@ def real_model_lines(case, o):
     ended = set(o.get("ended_before_kill", []))
     if ph == "before-launch":
         L.append({"op": "ev", "e": ["crash"]})
+    elif ph in PREPARE:
+        xs = [j["x"] for j in case["jobs"]]
+        px = (o.get("prepare") or {}).get("x")
+        oj = xs.index(px) if px in xs else 0  # the job whose script was being generated
+        L.append({"op": "ev", "e": ["untilEnter", oj]})
+        L.append({"op": "ev", "e": ["crashInPrepare", oj, PREPARE[ph]]})
     elif ph in ("mid-launch", "mid-pidwrite"):
         xs = [j["x"] for j in case["jobs"]]
         oj = xs.index(o["orphan_x"]) if o.get("orphan_x") in xs else 0  # the job that was inside aio_run
